@@ -850,9 +850,20 @@ class Engine(ExprMixin, CallMixin):
         finally:
             self.local_hint = None
         val = self.typed_local(s, val, st)
+        # `x = e` where evaluating e raises leaves x as it was: the exceptional outcomes (which matter when an enclosing
+        # try/except catches them) keep the previous binding of a plain-name target
+        before = {t.id: st.env.get(t.id, _UNBOUND) for t in s.targets if isinstance(t, ast.Name)}
         for t in s.targets:
             self.bind_target(t, val, st, s)
-        return self.with_raises(st, [Outcome("fall", st)], s)
+        outs = self.with_raises(st, [Outcome("fall", st)], s)
+        for o in outs:
+            if o.kind == "raise":
+                for n_, v_ in before.items():
+                    if v_ is _UNBOUND:
+                        o.st.env.pop(n_, None)
+                    else:
+                        o.st.env[n_] = v_
+        return outs
 
     def typed_local(self, s, val, st):
         """empty containers get their shape from the contract's `locals` table"""
@@ -1031,6 +1042,17 @@ class Engine(ExprMixin, CallMixin):
 
     def ev_Dict(self, node, st):
         if node.keys:
+            hint = getattr(self, "local_hint", None)
+            if hint is not None and hint[0] == "rec" and self.classes.get(hint[1], {}).get("dict_keys") \
+                    and all(isinstance(k_, ast.Constant) and isinstance(k_.value, str) for k_ in node.keys):
+                # {"k1": e1, ..} assigned to a local declared `rec[Cls]` where Cls models a dict with a fixed key set (class
+                # entry "dict_keys": True): the literal must give exactly the record's field names, each once; the values
+                # are evaluated in source order
+                names = [k_.value for k_ in node.keys]
+                fields = self.classes[hint[1]]["fields"]
+                if len(set(names)) == len(names) and set(names) == set(fields):
+                    vals = [self.ev(v_, st) for v_ in node.values]
+                    return VRec(hint[1], {n_: self.coerce(v_, self.shape(fields[n_])) for n_, v_ in zip(names, vals)})
             raise Unsupported("non-empty dict literal")
         return VEmptyDict()
 
@@ -1346,6 +1368,15 @@ class Engine(ExprMixin, CallMixin):
                 state.ghost[lc["seq"]] = seq_of_this_loop
             if lc.get("iter"):
                 state.ghost[lc["iter"]] = it  # ghost name for the value of the iterable expression (evaluated once)
+            if lc.get("elems"):
+                # ghost name for the LIST of the elements visited, in order: the list itself, or the insertion-ordered keys
+                # of a dict (iterating a dict visits its keys in insertion order)
+                if isinstance(it, VList) and it.elems is not None:
+                    state.ghost[lc["elems"]] = it
+                elif isinstance(it, VDict) and it.order is not None:
+                    state.ghost[lc["elems"]] = it.order
+                else:
+                    raise ContractError(f"loop #{k}: `elems` is only available for a list or an insertion-ordered dict")
 
         # init
         s0 = st
@@ -1526,6 +1557,19 @@ class Engine(ExprMixin, CallMixin):
             goal = to_z3(self.spec_eval(cmd[9:], st))
             self.obls.append(Obligation(f"{self.cur_name}#ghost.identity[{label}]", [], goal, line=getattr(node, "lineno", None), kind="ghost"))
             st.assume(goal)
+        elif cmd.startswith("name "):
+            # "name x, y": each listed program variable holding a scalar (Int / Bool / Real / String term) is re-bound to a
+            # fresh constant defined equal to its current value (the defining equation becomes a hypothesis).  A conservative
+            # extension - nothing about the program is assumed; later facts mention the short name instead of a large term,
+            # and a following `keep` may drop the defining equation (dropping hypotheses is always sound).
+            for v_ in [x_.strip() for x_ in cmd[5:].split(",") if x_.strip()]:
+                cur = st.env.get(v_)
+                if cur is None or not (is_leaf(cur) or isinstance(cur, (str, int, bool))):
+                    raise ContractError(f"name: {v_!r} is not a program variable holding a scalar value")
+                cur = to_z3(cur)
+                c0 = z3.Const(uid(v_ + ".named"), cur.sort())
+                st.assume(c0 == cur)
+                st.env[v_] = c0
         elif cmd.startswith("let "):
             name, expr = cmd[4:].split("=", 1)
             st.ghost[name.strip()] = self.spec_value(expr, st)
@@ -1535,7 +1579,13 @@ class Engine(ExprMixin, CallMixin):
             # is assumed); lets invariants mention a large formula by name.  The defining axiom forall x, y. P(x, y) == expr
             # (trigger P(x, y)) is built from expr evaluated at arbitrary x, y, so that an instance of it is the very term
             # the clause text `expr` denotes for those arguments.  Definitions survive proof cuts (see "cut").
+            # "define opaque P(..) = expr": the same, but the defining axiom is held back until a "reveal P" command adds it
+            # to the state it is executed in (inside a "forall .. | reveal P | assert .." only for that sub-proof): the
+            # solver sees the body of P only where the proof needs it.
             head, expr = cmd[7:].split("=", 1)
+            opaque = head.strip().startswith("opaque ")
+            if opaque:
+                head = head.strip()[7:]
             name, params = head.strip().rstrip(")").split("(")
             name, params = name.strip(), [p_.strip() for p_ in params.split(",") if p_.strip()]
             s2 = st.copy()
@@ -1551,7 +1601,15 @@ class Engine(ExprMixin, CallMixin):
             st.ghost[name] = VFunc("pyfunc", (lambda f: lambda *a: f(*[to_z3(x) for x in a]))(f), name)
             bs = [z3.Int(uid(p_ + "b")) for p_ in params]
             ax = z3.ForAll(bs, z3.substitute(f(*cs) == body, *zip(cs, bs)), patterns=[f(*bs)])
-            st.ghost["__defs__"] = list(st.ghost.get("__defs__", ())) + [ax]
+            if opaque:
+                st.ghost["__opaque__"] = dict(st.ghost.get("__opaque__", {}), **{name: ax})
+            else:
+                st.ghost["__defs__"] = list(st.ghost.get("__defs__", ())) + [ax]
+                st.assume(ax)
+        elif cmd.startswith("reveal "):
+            ax = st.ghost.get("__opaque__", {}).get(cmd[7:].strip())
+            if ax is None:
+                raise ContractError(f"reveal: no opaque definition named {cmd[7:].strip()!r}")
             st.assume(ax)
         elif cmd.startswith("use ") and " when " in cmd:
             # "use L(args) when C": the instance is used only where C holds (its preconditions are to be shown under C, its
@@ -1565,6 +1623,24 @@ class Engine(ExprMixin, CallMixin):
             # dropped and P is kept instead (dropping hypotheses is always sound).  Keeps the by-products of one statement
             # (lambda terms, string facts, lemma instances) out of every later obligation once their consequence is recorded.
             st.ghost["__mark_" + cmd[5:].strip()] = len(st.pc)
+        elif cmd.startswith("stash "):
+            # "stash M": the quantified hypotheses added to this path since "mark M" are set aside (not visible to the obligations that
+            # follow) until "unstash M" puts them back.  Hypotheses are facts about immutable values established earlier on
+            # this very path, so hiding them and restoring them later is sound; it keeps facts that are needed only much
+            # later (e.g. a callee's postcondition that is a precondition of the final call) from slowing every proof between.
+            mname = cmd[6:].strip()
+            at_ = st.ghost.get("__mark_" + mname)
+            if not isinstance(at_, int) or at_ > len(st.pc):
+                raise ContractError(f"stash: no valid mark {mname!r} on this path")
+            from .expr import _has_quant
+            # (only the quantified ones: ground facts - allocation order, path conditions - are cheap and stay)
+            st.ghost["__stash_" + mname] = tuple(f_ for f_ in st.pc[at_:] if _has_quant(f_))
+            st.pc[at_:] = [f_ for f_ in st.pc[at_:] if not _has_quant(f_)]
+        elif cmd.startswith("unstash "):
+            saved = st.ghost.get("__stash_" + cmd[8:].strip())
+            if not isinstance(saved, tuple):
+                raise ContractError(f"unstash: nothing stashed under {cmd[8:].strip()!r} on this path")
+            st.pc.extend(saved)
         elif cmd.startswith("summarize "):
             mname, rest = cmd[10:].split(" as ", 1)
             at_ = st.ghost.get("__mark_" + mname.strip())
@@ -1879,6 +1955,9 @@ class Engine(ExprMixin, CallMixin):
         for k, e in enumerate(lem["ensures"]):
             self.emit(f"ensures.{k}", st, self.spec_eval(e, st), None, kind="lemma")
         return self.obls[first:]
+
+
+_UNBOUND = object()  # marker: the name had no binding (st_Assign, exceptional outcomes)
 
 
 class VEmptyDict:
